@@ -19,7 +19,11 @@ suite=PASS
 go test -vet=off -count=1 -timeout 25m ./... > /tmp/mw/$id.suite.log 2>&1 || {
   # tolerate the flaky CLI watch tests / delete-order race: re-run failing packages once
   fails=$(grep "^FAIL" /tmp/mw/$id.suite.log | awk '{print $2}' | grep furiko | sort -u)
-  for p in $fails; do go test -vet=off -count=1 "$p" >> /tmp/mw/$id.suite2.log 2>&1 || suite="FAIL($p)"; done
+  for p in $fails; do
+    ok=0
+    for try in 1 2 3; do go test -vet=off -count=1 "$p" >> /tmp/mw/$id.suite2.log 2>&1 && { ok=1; break; }; done
+    [ $ok = 1 ] || suite="FAIL($p)"
+  done
 }
 # demo files
 paths=$(grep -ohE "(pkg|apis)/[A-Za-z0-9_/.-]+_test\.go" "$dir/notes.md" | sort -u)
